@@ -210,6 +210,13 @@ def main(ctx):
                     for part in range(n):
                         jobs.append({"cases": base[part::n], "mode": mode, "tb": tb,
                                      "ser": [s1, s2]})
+        # the same grid with a payload codec active on both sides (the error travels encoded)
+        for (s1, s2) in (pairs if tier == "thorough" else [("json", "json"), ("cbor", "cbor")]):
+            for mode in (modes if tier == "thorough" else ["sync", "late"]):
+                for tb in (False, True):
+                    for part in range(4):
+                        jobs.append({"cases": base[part::4], "mode": mode, "tb": tb, "ser": [s1, s2],
+                                     "codec": True})
         ctx.pmap({"fw": fw, "nvx": "0"}, "props.c18:job", jobs, chunksize=2)
     ctx.coverage["distinct_nontrivial"] = int(ctx.counters["error_on_wire"])
     ctx.coverage["grid_points_per_env"] = len(base)
@@ -218,7 +225,8 @@ def main(ctx):
               "traceback_forwarded", "kwargs_carried", "mode:sync", "mode:future", "mode:late",
               "mode:coro", "mode:interrupt", "ser:json", "ser:msgpack", "ser:cbor", "ser:ubjson",
               "unserializable_reported", "redefined_class_surfaced",
-              "premapped_uri_class_surfaced", "behind_check_types", "carried_uri_of_defined_class"):
+              "premapped_uri_class_surfaced", "behind_check_types", "carried_uri_of_defined_class",
+              "with_payload_codec"):
         ctx.require(n)
 
 
@@ -431,7 +439,7 @@ def setup_registries(case, callee, caller, wire_uri_expected):
     return cls
 
 
-def run_case(case, mode, tb, ser):
+def run_case(case, mode, tb, ser, codec=False):
     """one execution -> (observation dict, list of (clause, detail))"""
     import txaio
     from harness import wamp_b2b as H
@@ -441,6 +449,12 @@ def run_case(case, mode, tb, ser):
     b = H.B2B(sers={"callee": ser[0], "caller": ser[1]})
     callee, caller = b.sessions["callee"], b.sessions["caller"]
     callee.traceback_app = tb
+    if codec:
+        # both applications use a payload codec (end-to-end encoded payloads): the error travels in
+        # the envelope of the ERROR message and surfaces at the caller all the same
+        from props.c10 import JsonEnvelopeCodec
+        callee.set_payload_codec(JsonEnvelopeCodec())
+        caller.set_payload_codec(JsonEnvelopeCodec())
     if case.get("ue") == "raises":
         # the callee application overrides the documented onUserError hook - and its hook fails
         def failing_hook(fail, msg):
@@ -526,6 +540,19 @@ def run_case(case, mode, tb, ser):
     else:
         em = H.make_serializer(ser[0]).unserialize(wires[0])[0]
         w_uri, w_args, w_kwargs = em.error, norm(em.args or []), norm(em.kwargs or {})
+        if codec and em.enc_algo:
+            from props.c10 import JsonEnvelopeCodec
+            from autobahn.wamp.types import EncodedPayload
+            if em.enc_serializer is None:
+                bad.append(("envelope-incomplete", "ERROR carries enc_algo=%r but no enc_serializer" % (em.enc_algo,)))
+            inner_uri, ia, ik = JsonEnvelopeCodec().decode(False, em.error, EncodedPayload(
+                em.payload, em.enc_algo, em.enc_serializer, em.enc_key))
+            if inner_uri != em.error:
+                bad.append(("envelope-uri", "ERROR uri %r, URI inside the envelope %r" % (em.error, inner_uri)))
+            w_args, w_kwargs = norm(ia or []), norm(ik or {})
+        elif codec and not case.get("unserializable") and w_uri == exp_uri:
+            bad.append(("error-in-clear", "payload codec active, the CALL was encoded, the ERROR %r travels in "
+                        "clear" % (w_uri,)))
         obs["wire"] = [w_uri, w_args, {k: (v if k != "traceback" else "<tb>")
                                        for k, v in w_kwargs.items()}]
         if case.get("unserializable"):
@@ -658,8 +685,10 @@ def job(a):
     samples = []
     evals = 0
     for case in a["cases"]:
-        obs, bad = run_case(case, mode, tb, ser)
+        obs, bad = run_case(case, mode, tb, ser, codec=bool(a.get("codec")))
         evals += 1
+        if a.get("codec"):
+            stats["with_payload_codec"] = stats.get("with_payload_codec", 0) + 1
         stats["mode:" + mode] += 1
         for s in set(ser):
             stats["ser:" + s] += 1
@@ -707,7 +736,8 @@ def job(a):
                         PAYLOADS[case["payload"]], detail, obs["wire"], obs["outcome"]),
                     "replay": {"env": {"fw": env.get("fw"), "nvx": "0"},
                                "func": "props.c18:replay",
-                               "arg": {"case": case, "mode": mode, "tb": tb, "ser": ser}}})
+                               "arg": {"case": case, "mode": mode, "tb": tb, "ser": ser,
+                                       "codec": bool(a.get("codec"))}}})
         if not samples and obs["wire"] and case["payload"] == 4:
             samples.append({"case": case, "mode": mode, "tb": tb, "ser": ser, "fw": env.get("fw"),
                             "wire": obs["wire"], "outcome": obs["outcome"]})
@@ -715,7 +745,7 @@ def job(a):
 
 
 def replay(a):
-    obs, bad = run_case(a["case"], a["mode"], a["tb"], a["ser"])
+    obs, bad = run_case(a["case"], a["mode"], a["tb"], a["ser"], codec=bool(a.get("codec")))
     s, d = shape(a["case"])
     return {"observed": obs, "expected_wire": list(expected_wire(a["case"])),
             "viol": [{"sig": "C18|%s|%s|%s" % (c, s, d), "desc": t} for c, t in bad]}
